@@ -405,3 +405,439 @@ theorem nat_down_eval (S D : IntTy) (eS eD : Int) (v : Int) (hS : 1 ≤ S.bits) 
   simp only [plain, Scaled.convert, hne, ite_false, intOps, liftTV, hsc, Res.bind_ok, Res.pure_eq, Res.map, convert]
 
 end Cnl.RoundCvtP
+
+/-!
+# Floating-point sources
+
+Facts about `CnlModel.CFloat` used by C09: values whose significand fits the precision round to
+themselves (`roundND_exact`, `ofDyadic_exact`), integer-valued numbers (`IntRep`) add exactly, and
+the home-made `floor` of the rounding conversions (`floorEmul`) is the floor whenever `|⌊x⌋| < 2^prec`.
+-/
+namespace Cnl.FloatP
+open Cnl Cnl.Spec
+
+/-- signed significand -/
+def sval (s : Bool) (m : Nat) : Int := if s then -(m : Int) else m
+
+theorem roundHalfEven_exact (q d : Nat) (hd : 0 < d) : roundHalfEven (q * d) d = q := by
+  have h1 : q * d / d = q := Nat.mul_div_cancel q hd
+  have h2 : q * d % d = 0 := Nat.mul_mod_left ..
+  simp only [roundHalfEven, h1, h2, Nat.mul_zero, hd, ite_true]
+
+theorem log2_mul_two_pow {N : Nat} (hN : N ≠ 0) (t : Nat) : (N * 2^t).log2 = N.log2 + t := by
+  have hp : 0 < 2^t := Nat.two_pow_pos t
+  have hne : N * 2^t ≠ 0 := by
+    intro h; rcases Nat.mul_eq_zero.1 h with h | h <;> omega
+  rw [Nat.log2_eq_iff hne]
+  have h1 := Nat.log2_self_le hN
+  have h2 := Nat.lt_log2_self (n := N)
+  constructor
+  · rw [Nat.pow_add]; exact Nat.mul_le_mul_right _ h1
+  · rw [show N.log2 + t + 1 = (N.log2 + 1) + t by omega, Nat.pow_add]
+    exact Nat.mul_lt_mul_of_pos_right h2 hp
+
+theorem ilog2Q_pow2 {n : Nat} (hn : n ≠ 0) (b : Nat) : ilog2Q n (2^b) = (n.log2 : Int) - b := by
+  have h1 := Nat.log2_self_le hn
+  unfold ilog2Q
+  simp only [Nat.log2_two_pow]
+  have hok : (if 0 ≤ (n.log2 : Int) - b then decide (2^b * 2^((n.log2 : Int) - b).toNat ≤ n)
+      else decide (2^b ≤ n * 2^(-((n.log2 : Int) - b)).toNat)) = true := by
+    split
+    · rename_i h
+      have e : ((n.log2 : Int) - b).toNat = n.log2 - b := by omega
+      rw [e, ← Nat.pow_add, show b + (n.log2 - b) = n.log2 by omega]
+      simpa using h1
+    · rename_i h
+      have e : (-((n.log2 : Int) - b)).toNat = b - n.log2 := by omega
+      rw [e]
+      have : 2^b = 2^n.log2 * 2^(b - n.log2) := by rw [← Nat.pow_add]; congr 1; omega
+      rw [this]
+      simpa using Nat.mul_le_mul_right _ h1
+  simp only [hok, ite_true]
+
+
+theorem log2_lt_prec {N p : Nat} (hN : N ≠ 0) (hlt : N < 2^p) : N.log2 < p := (Nat.log2_lt hN).2 hlt
+
+/-- a value `N · 2^(t-b)` whose significand `N` fits the precision and whose binade is in the normal
+range rounds to itself (in canonical form) -/
+theorem roundND_exact (f : Fmt) (neg : Bool) {N : Nat} (hN : N ≠ 0) (hlt : N < 2^f.prec) (t b : Nat)
+    (hmin : f.emin ≤ (N.log2 : Int) + t - b) (hmax : (N.log2 : Int) + t - b ≤ f.emax) :
+    f.roundND neg (N * 2^t) (2^b)
+      = .fin neg (N * 2^(f.prec - 1 - N.log2)) ((N.log2 : Int) + t - b - ((f.prec : Int) - 1)) := by
+  have hL := log2_lt_prec hN hlt
+  have hne : N * 2^t ≠ 0 := by
+    have := Nat.two_pow_pos t
+    intro h; rcases Nat.mul_eq_zero.1 h with h | h <;> omega
+  have hlog : ilog2Q (N * 2^t) (2^b) = (N.log2 : Int) + t - b := by
+    rw [ilog2Q_pow2 hne, log2_mul_two_pow hN]; omega
+  have hnotlt : ¬ ((N.log2 : Int) + t - b < f.emin) := by omega
+  -- the rounded significand
+  have hm : (if 0 ≤ (N.log2 : Int) + t - b - ((f.prec : Int) - 1)
+        then roundHalfEven (N * 2^t) (2^b * 2^((N.log2 : Int) + t - b - ((f.prec : Int) - 1)).toNat)
+        else roundHalfEven (N * 2^t * 2^(-((N.log2 : Int) + t - b - ((f.prec : Int) - 1))).toNat) (2^b))
+      = N * 2^(f.prec - 1 - N.log2) := by
+    split
+    · rename_i h
+      have e : N * 2^t = (N * 2^(f.prec - 1 - N.log2)) * (2^b * 2^((N.log2 : Int) + t - b - ((f.prec : Int) - 1)).toNat) := by
+        rw [Nat.mul_assoc, ← Nat.pow_add, ← Nat.pow_add]; congr 2; omega
+      rw [e]
+      exact roundHalfEven_exact _ _ (Nat.mul_pos (Nat.two_pow_pos _) (Nat.two_pow_pos _))
+    · rename_i h
+      have e : N * 2^t * 2^(-((N.log2 : Int) + t - b - ((f.prec : Int) - 1))).toNat = (N * 2^(f.prec - 1 - N.log2)) * 2^b := by
+        rw [Nat.mul_assoc, Nat.mul_assoc, ← Nat.pow_add, ← Nat.pow_add]; congr 2; omega
+      rw [e]
+      exact roundHalfEven_exact _ _ (Nat.two_pow_pos _)
+  have hmlt : N * 2^(f.prec - 1 - N.log2) ≠ 2^f.prec := by
+    have h2 := Nat.lt_log2_self (n := N)
+    have : N * 2^(f.prec - 1 - N.log2) < 2^(N.log2 + 1) * 2^(f.prec - 1 - N.log2) :=
+      Nat.mul_lt_mul_of_pos_right h2 (Nat.two_pow_pos _)
+    rw [← Nat.pow_add, show N.log2 + 1 + (f.prec - 1 - N.log2) = f.prec by omega] at this
+    omega
+  have hnotmax : ¬ (f.emax < (N.log2 : Int) + t - b - ((f.prec : Int) - 1) + ((f.prec : Int) - 1)) := by omega
+  simp only [Fmt.roundND, hne, ite_false, hlog, hnotlt, hm, hmlt, hnotmax]
+
+
+/-- the format can hold the integers below `2^prec` as normal numbers -/
+def FmtOk (f : Fmt) : Prop := 1 ≤ f.prec ∧ f.emin ≤ 0 ∧ (f.prec : Int) - 1 ≤ f.emax
+
+instance (f : Fmt) : Decidable (FmtOk f) := by unfold FmtOk; exact inferInstance
+
+theorem fmtOk_binary32 : FmtOk binary32 := by decide
+theorem fmtOk_binary64 : FmtOk binary64 := by decide
+theorem fmtOk_x87ext : FmtOk x87ext := by decide
+
+theorem ofDyadic_exact (f : Fmt) (neg : Bool) {N : Nat} (hN : N ≠ 0) (hlt : N < 2^f.prec) (e : Int)
+    (hmin : f.emin ≤ (N.log2 : Int) + e) (hmax : (N.log2 : Int) + e ≤ f.emax) :
+    f.ofDyadic neg N e = .fin neg (N * 2^(f.prec - 1 - N.log2)) ((N.log2 : Int) + e - ((f.prec : Int) - 1)) := by
+  unfold Fmt.ofDyadic
+  split
+  · rename_i h
+    have := roundND_exact f neg hN hlt e.toNat 0 (by omega) (by omega)
+    rw [Nat.pow_zero] at this
+    rw [this]; congr 1; omega
+  · rename_i h
+    have := roundND_exact f neg hN hlt 0 (-e).toNat (by omega) (by omega)
+    rw [Nat.pow_zero, Nat.mul_one] at this
+    rw [this]; congr 1; omega
+
+/-- `x` is a finite value equal to the integer `a`, with a non-positive quantum exponent -/
+def IntRep (x : FVal) (a : Int) : Prop :=
+  ∃ s M E, x = .fin s M E ∧ E ≤ 0 ∧ sval s M = a * 2^(-E).toNat
+
+theorem sval_mul (s : Bool) (m k : Nat) : sval s (m * k) = sval s m * (k : Int) := by
+  unfold sval; split
+  · rw [Int.natCast_mul, Int.neg_mul]
+  · rw [Int.natCast_mul]
+
+theorem natCast_two_pow (k : Nat) : ((2^k : Nat) : Int) = 2^k := by
+  rw [Int.natCast_pow]; rfl
+
+/-- rounding the integer `±N` (written over any power-of-two denominator) is exact -/
+theorem roundND_intRep (f : Fmt) (hf : FmtOk f) (neg : Bool) {N : Nat} (hN : N ≠ 0) (hlt : N < 2^f.prec) (j : Nat) :
+    IntRep (f.roundND neg (N * 2^j) (2^j)) (sval neg N) := by
+  obtain ⟨h1, h2, h3⟩ := hf
+  have hL := log2_lt_prec hN hlt
+  rw [roundND_exact f neg hN hlt j j (by omega) (by omega)]
+  refine ⟨neg, _, _, rfl, by omega, ?_⟩
+  rw [sval_mul, natCast_two_pow]
+  congr 2; omega
+
+theorem ofInt_intRep (f : Fmt) (hf : FmtOk f) (a : Int) (ha : a.natAbs < 2^f.prec) : IntRep (f.ofInt a) a := by
+  by_cases h0 : a = 0
+  · subst h0
+    refine ⟨false, 0, f.qmin, by simp [Fmt.ofInt, Fmt.roundND], ?_, by simp [sval]⟩
+    obtain ⟨h1, h2, h3⟩ := hf
+    unfold Fmt.qmin; omega
+  · have hN : a.natAbs ≠ 0 := by omega
+    have := roundND_intRep f hf (decide (a < 0)) hN ha 0
+    rw [Nat.pow_zero, Nat.mul_one] at this
+    unfold Fmt.ofInt
+    have e : sval (decide (a < 0)) a.natAbs = a := by
+      unfold sval; by_cases h : a < 0 <;> simp [h] <;> omega
+    rw [e] at this; exact this
+
+theorem neg_intRep {x : FVal} {a : Int} (h : IntRep x a) : IntRep x.neg (-a) := by
+  obtain ⟨s, M, E, rfl, hE, hv⟩ := h
+  refine ⟨!s, M, E, rfl, hE, ?_⟩
+  rw [Int.neg_mul, ← hv]
+  unfold sval; cases s <;> simp
+
+theorem truncInt_intRep {s : Bool} {M : Nat} {E : Int} {a : Int} (hE : E ≤ 0)
+    (hv : sval s M = a * 2^(-E).toNat) : truncInt s M E = a := by
+  unfold truncInt
+  by_cases h0 : 0 ≤ E
+  · have : E = 0 := by omega
+    subst this
+    simp [sval] at hv ⊢
+    exact hv
+  · simp only [h0, ite_false]
+    have hp := two_pow_pos (-E).toNat
+    -- M = |a| * 2^j
+    have hM : (M : Int) = (a.natAbs : Int) * 2^(-E).toNat := by
+      unfold sval at hv
+      by_cases ha : 0 ≤ a
+      · have : 0 ≤ a * 2^(-E).toNat := Int.mul_nonneg ha (Int.le_of_lt hp)
+        have hn : (a.natAbs : Int) = a := by omega
+        rw [hn]
+        cases s <;> simp at hv <;> omega
+      · have : a * 2^(-E).toNat < 0 := Int.mul_neg_of_neg_of_pos (by omega) hp
+        have hn : (a.natAbs : Int) = -a := by omega
+        rw [hn, Int.neg_mul]
+        cases s <;> simp at hv <;> omega
+    have hM' : M = a.natAbs * 2^(-E).toNat := by
+      have : ((a.natAbs * 2^(-E).toNat : Nat) : Int) = (a.natAbs : Int) * 2^(-E).toNat := by
+        rw [Int.natCast_mul, natCast_two_pow]
+      omega
+    rw [hM', Nat.mul_div_cancel _ (Nat.two_pow_pos _)]
+    -- sign
+    unfold sval at hv
+    cases s <;> simp at hv ⊢
+    · -- non-negative
+      have : 0 ≤ a := by
+        apply Decidable.byContradiction; intro hn
+        have : a * 2^(-E).toNat < 0 := Int.mul_neg_of_neg_of_pos (by omega) hp
+        omega
+      omega
+    · have : a ≤ 0 := by
+        apply Decidable.byContradiction; intro hn
+        have : 0 < a * 2^(-E).toNat := Int.mul_pos (by omega) hp
+        omega
+      omega
+
+
+theorem scaled_eq (s : Bool) (m : Nat) (e q : Int) : FVal.scaled s m e q = sval s m * 2^(e - q).toNat := by
+  unfold FVal.scaled sval
+  simp only [Int.natCast_mul, natCast_two_pow]
+  split <;> simp [Int.neg_mul]
+
+theorem scaled_intRep {s : Bool} {M : Nat} {E : Int} {a : Int} (hE : E ≤ 0)
+    (hv : sval s M = a * 2^(-E).toNat) {q : Int} (hq : q ≤ E) :
+    FVal.scaled s M E q = a * 2^(-q).toNat := by
+  rw [scaled_eq, hv, Int.mul_assoc, ← Int.pow_add]; congr 2; omega
+
+theorem sval_sign_natAbs (a : Int) : sval (decide (a < 0)) a.natAbs = a := by
+  unfold sval; by_cases h : a < 0 <;> simp [h] <;> omega
+
+theorem qmin_le_zero {f : Fmt} (hf : FmtOk f) : f.qmin ≤ 0 := by
+  obtain ⟨h1, h2, h3⟩ := hf; unfold Fmt.qmin; omega
+
+/-- the sum of two integer-valued numbers is exact when it is below `2^prec` in magnitude -/
+theorem add_intRep (f : Fmt) (hf : FmtOk f) {x y : FVal} {a b : Int} (hx : IntRep x a) (hy : IntRep y b)
+    (hab : (a + b).natAbs < 2^f.prec) : IntRep (f.add x y) (a + b) := by
+  obtain ⟨s1, M1, E1, rfl, hE1, hv1⟩ := hx
+  obtain ⟨s2, M2, E2, rfl, hE2, hv2⟩ := hy
+  have hq1 : (if E1 ≤ E2 then E1 else E2) ≤ E1 := by split <;> omega
+  have hq2 : (if E1 ≤ E2 then E1 else E2) ≤ E2 := by split <;> omega
+  simp only [Fmt.add]
+  generalize (if E1 ≤ E2 then E1 else E2) = q at hq1 hq2 ⊢
+  rw [scaled_intRep hE1 hv1 hq1, scaled_intRep hE2 hv2 hq2, ← Int.add_mul]
+  have hp := two_pow_pos (-q).toNat
+  by_cases h0 : a + b = 0
+  · rw [h0, Int.zero_mul]
+    simp only [ite_true]
+    exact ⟨_, 0, f.qmin, rfl, qmin_le_zero hf, by simp [sval]⟩
+  · have hc0 : (a + b) * 2^(-q).toNat ≠ 0 := by
+      intro h; rcases Int.mul_eq_zero.1 h with h | h <;> omega
+    simp only [hc0, ite_false]
+    have hN : (a + b).natAbs ≠ 0 := by omega
+    have hneg : decide ((a + b) * 2^(-q).toNat < 0) = decide (a + b < 0) := by
+      apply decide_eq_decide.2
+      constructor
+      · intro h
+        apply Decidable.byContradiction; intro hn
+        have := Int.mul_nonneg (show 0 ≤ a + b by omega) (Int.le_of_lt hp)
+        omega
+      · intro h; exact Int.mul_neg_of_neg_of_pos h hp
+    have habs : ((a + b) * 2^(-q).toNat).natAbs = (a + b).natAbs * 2^(-q).toNat := by
+      rw [Int.natAbs_mul, Int.natAbs_pow]; rfl
+    rw [hneg, habs]
+    have key := roundND_intRep f hf (decide (a + b < 0)) hN hab (-q).toNat
+    rw [sval_sign_natAbs] at key
+    unfold Fmt.ofDyadic
+    by_cases hq0 : 0 ≤ q
+    · have : q = 0 := by omega
+      subst this
+      simp only [Int.le_refl, ite_true, Int.neg_zero, Int.toNat_zero, Nat.pow_zero, Nat.mul_one] at key ⊢
+      exact key
+    · simp only [hq0, ite_false]
+      exact key
+
+
+/-! ## comparisons -/
+
+theorem fCmp_lt_fin (s1 : Bool) (m1 : Nat) (e1 : Int) (s2 : Bool) (m2 : Nat) (e2 : Int) :
+    fCmp .lt (.fin s1 m1 e1) (.fin s2 m2 e2)
+      = decide (FVal.scaled s1 m1 e1 (if e1 ≤ e2 then e1 else e2) < FVal.scaled s2 m2 e2 (if e1 ≤ e2 then e1 else e2)) := by
+  simp only [fCmp, FVal.cmp?]
+  generalize FVal.scaled s1 m1 e1 _ = a
+  generalize FVal.scaled s2 m2 e2 _ = b
+  by_cases h : a < b
+  · simp [h]
+  · by_cases h' : a = b <;> simp [h, h']
+
+theorem fCmp_ge_fin (s1 : Bool) (m1 : Nat) (e1 : Int) (s2 : Bool) (m2 : Nat) (e2 : Int) :
+    fCmp .ge (.fin s1 m1 e1) (.fin s2 m2 e2)
+      = decide (FVal.scaled s1 m1 e1 (if e1 ≤ e2 then e1 else e2) ≥ FVal.scaled s2 m2 e2 (if e1 ≤ e2 then e1 else e2)) := by
+  simp only [fCmp, FVal.cmp?]
+  generalize FVal.scaled s1 m1 e1 _ = a
+  generalize FVal.scaled s2 m2 e2 _ = b
+  by_cases h : a < b
+  · have h2 : ¬ b ≤ a := by omega
+    simp [h, h2]
+  · have h2 : b ≤ a := by omega
+    by_cases h' : a = b
+    · subst h'; simp
+    · simp [h, h', h2]
+
+theorem mul_two_pow_lt_iff (a b : Int) (k : Nat) : a * 2^k < b * 2^k ↔ a < b := by
+  have hp := two_pow_pos k
+  constructor
+  · intro h; exact Int.lt_of_mul_lt_mul_right h (Int.le_of_lt hp)
+  · intro h; exact Int.mul_lt_mul_of_pos_right h hp
+
+/-- `x < 0` -/
+theorem fCmp_lt_zero (f : Fmt) (s : Bool) (m : Nat) (e : Int) :
+    fCmp .lt (.fin s m e) (f.ofInt 0) = decide (sval s m < 0) := by
+  have h0 : f.ofInt 0 = .fin false 0 f.qmin := by simp [Fmt.ofInt, Fmt.roundND]
+  rw [h0, fCmp_lt_fin, scaled_eq, scaled_eq]
+  apply decide_eq_decide.2
+  have : sval false 0 = 0 := by simp [sval]
+  rw [this, Int.zero_mul]
+  have := mul_two_pow_lt_iff (sval s m) 0 (e - if e ≤ f.qmin then e else f.qmin).toNat
+  rw [Int.zero_mul] at this
+  exact this
+
+/-- the truncated integer part in terms of the signed significand -/
+theorem truncInt_eq (s : Bool) (m : Nat) (e : Int) :
+    truncInt s m e = if 0 ≤ e then sval s m * 2^e.toNat else (sval s m).tdiv (2^(-e).toNat) := by
+  unfold truncInt sval
+  by_cases h : 0 ≤ e
+  · simp only [h, ite_true, Int.natCast_mul, natCast_two_pow]
+    cases s <;> simp [Int.neg_mul]
+  · simp only [h, ite_false]
+    have : ((m / 2^(-e).toNat : Nat) : Int) = (m : Int).tdiv (2^(-e).toNat) := by
+      rw [Int.natCast_ediv, natCast_two_pow, Int.tdiv_eq_ediv_of_nonneg (by omega)]
+    rw [this]
+    cases s <;> simp [Int.neg_tdiv]
+
+/-- `x < trunc x`, for the integer part held as an `IntRep` -/
+theorem fCmp_lt_trunc (s : Bool) (m : Nat) (e : Int) {xw : FVal} (hw : IntRep xw (truncInt s m e)) :
+    fCmp .lt (.fin s m e) xw = decide (e < 0 ∧ (sval s m).tmod (2^(-e).toNat) < 0) := by
+  obtain ⟨s2, M2, E2, rfl, hE2, hv2⟩ := hw
+  rw [fCmp_lt_fin]
+  have hq1 : (if e ≤ E2 then e else E2) ≤ e := by split <;> omega
+  have hq2 : (if e ≤ E2 then e else E2) ≤ E2 := by split <;> omega
+  generalize (if e ≤ E2 then e else E2) = q at hq1 hq2 ⊢
+  rw [scaled_intRep hE2 hv2 hq2, scaled_eq, truncInt_eq]
+  apply decide_eq_decide.2
+  by_cases h : 0 ≤ e
+  · simp only [h, ite_true]
+    have e1 : sval s m * 2^e.toNat * 2^(-q).toNat = sval s m * 2^(e - q).toNat := by
+      rw [Int.mul_assoc, ← Int.pow_add]; congr 2; omega
+    rw [e1]
+    constructor
+    · intro h'; omega
+    · intro h'; omega
+  · simp only [h, ite_false]
+    have e1 : (2:Int)^(-q).toNat = 2^(-e).toNat * 2^(e - q).toNat := by
+      rw [← Int.pow_add]; congr 1; omega
+    rw [e1, ← Int.mul_assoc, mul_two_pow_lt_iff]
+    have hp := two_pow_pos (-e).toNat
+    have hf := tdiv_tmod_facts (sval s m) (2^(-e).toNat) (by omega)
+    rw [Int.mul_comm] at hf
+    constructor
+    · intro h'; exact ⟨by omega, by omega⟩
+    · intro h'; omega
+
+theorem ediv_eq_tdiv_sub (a p : Int) (hp : 0 < p) :
+    a / p = a.tdiv p - (if a.tmod p < 0 then 1 else 0) := by
+  have hf := tdiv_tmod_facts a p (by omega)
+  have := (Int.ediv_emod_unique (a := a) (b := p) (q := a.tdiv p - (if a.tmod p < 0 then 1 else 0))
+    (r := a.tmod p + (if a.tmod p < 0 then p else 0)) hp).2
+  refine (this ⟨?_, ?_, ?_⟩).1
+  · split
+    · rw [Int.mul_sub, Int.mul_one]; omega
+    · rw [Int.sub_zero]; omega
+  · split <;> omega
+  · split <;> omega
+
+
+/-! ## the home-made `floor` -/
+
+/-- the `floor_residual` condition: `x < 0 && x < x_whole` -/
+def residual (s : Bool) (m : Nat) (e : Int) : Int :=
+  if sval s m < 0 ∧ (e < 0 ∧ (sval s m).tmod (2^(-e).toNat) < 0) then 1 else 0
+
+theorem floor_eq_trunc_sub (s : Bool) (m : Nat) (e : Int) :
+    roundDyadic .floor (sval s m) e = truncInt s m e - residual s m e := by
+  unfold roundDyadic residual
+  rw [truncInt_eq]
+  by_cases h : 0 ≤ e
+  · have : ¬ e < 0 := by omega
+    simp only [h, ite_true, this, false_and, and_false, ite_false, Int.sub_zero]
+  · have he : e < 0 := by omega
+    simp only [h, ite_false, he, true_and]
+    have hp := two_pow_pos (-e).toNat
+    show sval s m / 2^(-e).toNat = _
+    rw [ediv_eq_tdiv_sub _ _ hp]
+    have hf := tdiv_tmod_facts (sval s m) (2^(-e).toNat) (by omega)
+    by_cases ht : (sval s m).tmod (2^(-e).toNat) < 0
+    · have : sval s m < 0 := by
+        apply Decidable.byContradiction; intro hn
+        have := hf.2.1 (by omega); omega
+      simp only [ht, this, and_self, ite_true]
+    · simp only [ht, and_false, ite_false]
+
+theorem residual_cases (s : Bool) (m : Nat) (e : Int) :
+    residual s m e = 0 ∨ (residual s m e = 1 ∧ truncInt s m e ≤ 0) := by
+  unfold residual
+  split
+  · rename_i h
+    right; refine ⟨rfl, ?_⟩
+    rw [truncInt_eq]
+    have he : ¬ 0 ≤ e := by omega
+    simp only [he, ite_false]
+    have hp := two_pow_pos (-e).toNat
+    have := Int.tdiv_nonneg (a := -(sval s m)) (b := 2^(-e).toNat) (by omega) (by omega)
+    rw [Int.neg_tdiv] at this
+    omega
+  · left; rfl
+
+theorem floorEmul_intRep (f : Fmt) (hf : FmtOk f) (D : IntTy) (hDb : 1 ≤ D.bits) (hD1 : D.InRange 1)
+    (s : Bool) (m : Nat) (e : Int) (htr : D.InRange (truncInt s m e))
+    (hsmall : (roundDyadic .floor (sval s m) e).natAbs < 2^f.prec) :
+    ∃ y, RoundCvt.floorEmul f D (.fin s m e) = .ok y ∧ IntRep y (roundDyadic .floor (sval s m) e) := by
+  have hfl := floor_eq_trunc_sub s m e
+  have hrc := residual_cases s m e
+  have hwsmall : (truncInt s m e).natAbs < 2^f.prec := by omega
+  have hw := ofInt_intRep f hf (truncInt s m e) hwsmall
+  have hcond : (fCmp .lt (.fin s m e) (f.ofInt 0) && fCmp .lt (.fin s m e) (f.ofInt (truncInt s m e)))
+      = decide (sval s m < 0 ∧ (e < 0 ∧ (sval s m).tmod (2^(-e).toNat) < 0)) := by
+    rw [fCmp_lt_zero, fCmp_lt_trunc s m e hw]; simp only [Bool.decide_and]
+  have hres : (if (fCmp .lt (.fin s m e) (f.ofInt 0) && fCmp .lt (.fin s m e) (f.ofInt (truncInt s m e))) = true
+      then (1:Int) else 0) = residual s m e := by
+    rw [hcond]; unfold residual; simp only [decide_eq_true_eq]
+  have hrr : D.InRange (residual s m e) := by
+    rcases hrc with h | h
+    · rw [h]; exact RoundCvtP.zero_inRange D
+    · rw [h.1]; exact hD1
+  have hp1 : (1:Nat) < 2^f.prec := by
+    have : 2^1 ≤ 2^f.prec := Nat.pow_le_pow_right (by decide) hf.1
+    omega
+  have hrsmall : (residual s m e).natAbs < 2^f.prec := by
+    rcases hrc with h | h
+    · rw [h]; simp; exact Nat.two_pow_pos _
+    · rw [h.1]; exact hp1
+  have hr := neg_intRep (ofInt_intRep f hf (residual s m e) hrsmall)
+  have hsum := add_intRep f hf hw hr (by rw [← Int.sub_eq_add_neg, ← hfl]; exact hsmall)
+  refine ⟨f.sub (f.ofInt (truncInt s m e)) (f.ofInt (residual s m e)), ?_, ?_⟩
+  · simp only [RoundCvt.floorEmul, fToInt, intoRange, htr, ite_true, Res.bind_ok, hres, IntTy.wrap_id hDb hrr,
+      Res.pure_eq]
+  · rw [hfl, Int.sub_eq_add_neg]; exact hsum
+
+/-- `static_cast<D>` of an integer-valued number -/
+theorem fToInt_intRep (D : IntTy) {y : FVal} {a : Int} (h : IntRep y a) : fToInt D y = intoRange D a := by
+  obtain ⟨s, M, E, rfl, hE, hv⟩ := h
+  simp only [fToInt, truncInt_intRep hE hv]
+
+end Cnl.FloatP
